@@ -7,7 +7,7 @@ from ..lib import Facts, calls_in, own_nodes, stmt_of
 from ..model import AnalysisError
 from ..report import Run
 from ..spec import canon, drop_sites, spec_function
-from ..terms import TermCtx, contains, show, strip_sites, unphi_terms
+from ..terms import TermCtx, contains, show, strip_sites, unphi_terms, walk_all
 from .c04 import check_binders
 
 EXPLANATION = (
@@ -321,7 +321,8 @@ def check(run: Run) -> None:
         run.check(const_callee, "C06.R4", vc, at_, "lowering only for a Constant callee", "constructor lowering is not restricted to calls whose callee is a captured class constant")
         run.check(e.args[0] == V, "C06.R2", vc, at_, "constructor arguments are visited first", "constructor lowering uses the un-visited call")
         for conds, names_t in decision_alternatives(e.args[2]):
-            if names_t == ("const", None):
+            if names_t == ("const", None) or (names_t[0] == "index" and names_t[1] == ("const", None)):
+                # (the second form: names, n = <helper answering (names, n) or None>, on the helper's None alternative)
                 known = fx.compare_const(e.args[2], [ast.IsNot], None) or any(isinstance(a, ast.Compare) and len(a.ops) == 1 and isinstance(a.comparators[0], ast.Constant) and a.comparators[0].value is None and ((isinstance(a.ops[0], ast.Is) and not pol) or (isinstance(a.ops[0], ast.IsNot) and pol)) and strip_sites(fx._term(a.left))[0] in ("ifexp", "phi", "app") and ("const", None) in [x for _c, x in decision_alternatives(fx._term(a.left))] for a, pol in fx.atoms)
                 run.check(known, "C06.R4", vc, at_, "no lowering when the class is neither a dataclass nor a NamedTuple", "the binder may be handed None for the field names")
                 continue
@@ -345,11 +346,14 @@ def check(run: Run) -> None:
     run.rule("C06.R9", "the number of positional arguments is held against the number of parameters that can be given positionally (parameter kinds of the constructor's signature)")
 
     def _reads_kind(t):
-        return contains(t, lambda q: q[0] == "attr" and q[2] in ("kind", "kw_only"))
+        # the kind is held against KEYWORD_ONLY (or against both positional kinds), or the dataclass field's kw_only flag is read
+        names_ = {q[2] for q in walk_all(t) if q[0] == "attr"}
+        return ("kind" in names_ and ("KEYWORD_ONLY" in names_ or {"POSITIONAL_ONLY", "POSITIONAL_OR_KEYWORD"} <= names_)) or "kw_only" in names_
 
-    kind_reads = [n for g_ in unit(m, vc, depth=1) for n in own_nodes(g_) if isinstance(n, ast.Attribute) and n.attr in ("kind", "kw_only", "KEYWORD_ONLY")]
+    # (anywhere in the module: the reader of the field names may be reached through a table of callables)
+    kind_reads = [n for n in ast.walk(m.modules[mod].tree) if isinstance(n, ast.Attribute) and n.attr in ("kw_only", "KEYWORD_ONLY", "POSITIONAL_ONLY", "POSITIONAL_OR_KEYWORD")]
     if not kind_reads:
-        run.fail("C06.R9", vc, vc.node, "nothing in the constructor lowering reads the kind of a signature parameter: a keyword-only field (field(kw_only=True), @dataclass(kw_only=True)) is bound to a positional argument - Mid(x, z=0, *, y=0) called Mid(e.a, e.b, e.c) lowers to {'x','z','y'} where python raises TypeError", "n_positional = len([p for p in parameters if p.kind != p.KEYWORD_ONLY]); if n_positional < len(a.args): raise ValueError(..)", key="keyword-only constructor fields bound positionally")
+        run.fail("C06.R9", vc, vc.node, "nothing in the constructor lowering tells keyword-only parameters from positional ones: a keyword-only field (field(kw_only=True), @dataclass(kw_only=True)) is bound to a positional argument - Mid(x, z=0, *, y=0) called Mid(e.a, e.b, e.c) lowers to {'x','z','y'} where python raises TypeError", "n_positional = len([p for p in parameters if p.kind != p.KEYWORD_ONLY]); if n_positional < len(a.args): raise ValueError(..)", key="keyword-only constructor fields bound positionally")
     else:
         limited = False
         for e in sites:
@@ -360,10 +364,15 @@ def check(run: Run) -> None:
             for k_, v_ in dict(e.kwargs or {}).items():
                 bind_[("param", k_)] = v_
             for g_ in unit(m, cd_orig, depth=1):
+                hb_ = None
                 if g_ is not cd_orig:
-                    continue
+                    # a refusal in a helper of the binder (_check_argument_count(a, node, names, n_positional)): read in the binder's terms
+                    cs_ = [(c_, call, skip) for c_, call, skip in call_sites_of(m, g_) if c_ is cd_orig]
+                    if len(cs_) != 1 or cs_[0][1].keywords:
+                        continue
+                    hb_ = {("param", p_): strip_sites(fc_orig.term_of(a_)) for p_, a_ in zip(g_.pos_params[cs_[0][2]:], cs_[0][1].args)}
                 for r in [n for n in own_nodes(g_) if isinstance(n, ast.Raise)]:
-                    fx_ = Facts(ctx.analysis(g_), r)
+                    fx_ = Facts(ctx.analysis(g_), r, binding=hb_)
                     for a, pol in fx_.atoms:
                         if not pol:
                             continue
